@@ -5,10 +5,13 @@ package c20
 
 import (
 	"fmt"
+	"io"
 	"os"
+	"path"
 	"sort"
 	"strings"
 	"sync"
+	"testing/fstest"
 
 	"github.com/flosch/pongo2/v6"
 	"github.com/flosch/pongo2/v6/vsched"
@@ -66,9 +69,110 @@ func newWorld(seamed bool) *world {
 
 type HistCase struct {
 	Ops []string `json:"ops"`
+	// Loader: "" = the harness' in-memory loader (rooted names), "fs" = pongo2's FSLoader over an in-memory fs.FS
+	// behind a counting wrapper (unrooted names: the cache key is what FSLoader.Abs makes of the name)
+	Loader string `json:"loader,omitempty"`
 }
 
-func (c *HistCase) ID() string { return strings.Join(c.Ops, " ") }
+func (c *HistCase) ID() string {
+	if c.Loader != "" {
+		return c.Loader + ": " + strings.Join(c.Ops, " ")
+	}
+	return strings.Join(c.Ops, " ")
+}
+
+// the files of the histories also pull in an included file and an imported macro library of their OWN set
+func richSrc(name string, ver int) string {
+	return fileSrc(name, ver) + `{% include "inc" %}{% import "lib" lm %}{{ lm() }}`
+}
+
+func richRender(name string, ver, si int) string {
+	return renderOf(name, ver, si) + fmt.Sprintf("I%dL%d", si+1, si+1)
+}
+
+// hworld: two sets over one of the loader kinds, with the handles the history needs
+type hworld struct {
+	sets    [2]*pongo2.TemplateSet
+	keyOf   func(raw string) string
+	gets    func(si int, key string) int
+	setFile func(key, content string)
+	setFail func(key string, fail bool)
+}
+
+type countingLoader struct {
+	inner pongo2.TemplateLoader
+	gets  map[string]int
+	fail  map[string]bool
+}
+
+func (l *countingLoader) Abs(base, name string) string { return l.inner.Abs(base, name) }
+func (l *countingLoader) Get(p string) (io.Reader, error) {
+	l.gets[p]++
+	if l.fail[p] {
+		return nil, fmt.Errorf("countingLoader: %s is made to fail", p)
+	}
+	return l.inner.Get(p)
+}
+
+func newHistWorld(kind string) *hworld {
+	w := &hworld{}
+	if kind == "fs" {
+		var ls [2]*countingLoader
+		var fss [2]fstest.MapFS
+		for i := 0; i < 2; i++ {
+			m := fstest.MapFS{}
+			for _, n := range []string{"a", "b", "c"} {
+				m[n] = &fstest.MapFile{Data: []byte(richSrc(n, 1))}
+			}
+			m["inc"] = &fstest.MapFile{Data: []byte(fmt.Sprintf("I%d", i+1))}
+			m["lib"] = &fstest.MapFile{Data: []byte(fmt.Sprintf("{%% macro lm() export %%}L%d{%% endmacro %%}", i+1))}
+			fss[i] = m
+			ls[i] = &countingLoader{inner: pongo2.NewFSLoader(m), gets: map[string]int{}, fail: map[string]bool{}}
+			w.sets[i] = pongo2.NewSet(fmt.Sprint("c20-fs-", i), ls[i])
+		}
+		w.keyOf = func(raw string) string { return path.Clean(raw) }
+		w.gets = func(si int, key string) int { return ls[si].gets[key] }
+		w.setFile = func(key, content string) {
+			for i := 0; i < 2; i++ {
+				fss[i][key] = &fstest.MapFile{Data: []byte(content)}
+			}
+		}
+		w.setFail = func(key string, fail bool) {
+			for i := 0; i < 2; i++ {
+				ls[i].fail[key] = fail
+			}
+		}
+	} else {
+		var ls [2]*px.MemLoader
+		for i := 0; i < 2; i++ {
+			files := map[string]string{}
+			for _, n := range []string{"/a", "/b", "/c"} {
+				files[n] = richSrc(n, 1)
+			}
+			files["/inc"] = fmt.Sprintf("I%d", i+1)
+			files["/lib"] = fmt.Sprintf("{%% macro lm() export %%}L%d{%% endmacro %%}", i+1)
+			set, l := px.NewSet(files)
+			l.Fail = map[string]bool{}
+			w.sets[i], ls[i] = set, l
+		}
+		w.keyOf = func(raw string) string { return px.AbsRule("", raw) }
+		w.gets = func(si int, key string) int { return ls[si].Gets[key] }
+		w.setFile = func(key, content string) {
+			for i := 0; i < 2; i++ {
+				ls[i].Files[key] = content
+			}
+		}
+		w.setFail = func(key string, fail bool) {
+			for i := 0; i < 2; i++ {
+				ls[i].Fail[key] = fail
+			}
+		}
+	}
+	w.sets[0].Globals["g"] = "G1"
+	w.sets[1].Globals["g"] = "G2"
+	w.sets[1].Options.TrimBlocks = true
+	return w
+}
 
 var seqOps = []string{"FC(1,a)", "FC(1,b)", "FC(2,a)", "FC(1,./a)", "CC(1)", "CC(1,a)", "CC(1,b)", "CC(1,a,b)", "CC(1,c,b)", "CC(1,b,a)", "CC(2)", "DBG(1)", "CHG(a)", "FAIL(a)", "OK(a)"}
 
@@ -91,8 +195,11 @@ func (c *HistCase) Exec(t *eng.T) {
 		return
 	}
 	t.Nontrivial()
-	w := newWorld(false)
-	m := &model{version: map[string]int{"/a": 1, "/b": 1, "/c": 1}, failing: map[string]bool{}}
+	w := newHistWorld(c.Loader)
+	m := &model{version: map[string]int{}, failing: map[string]bool{}}
+	for _, n := range []string{"a", "b", "c"} {
+		m.version[w.keyOf(n)] = 1
+	}
 	m.cache[0], m.cache[1] = map[string]mEntry{}, map[string]mEntry{}
 	ids := map[*pongo2.Template]int{} // identity classes observed in the implementation
 	implID := func(tp *pongo2.Template, modelID int) (int, bool) {
@@ -114,11 +221,11 @@ func (c *HistCase) Exec(t *eng.T) {
 		case "FC":
 			si := int(args[0][0] - '1')
 			raw := args[1]
-			key := px.AbsRule("", raw)
-			set, l := w.sets[si], w.loaders[si]
-			before := l.Gets[key]
+			key := w.keyOf(raw)
+			set := w.sets[si]
+			before := w.gets(si, key)
 			tp, err := set.FromCache(raw)
-			fetched := l.Gets[key] - before
+			fetched := w.gets(si, key) - before
 			// model
 			var wantErr bool
 			var want mEntry
@@ -165,7 +272,7 @@ func (c *HistCase) Exec(t *eng.T) {
 				return
 			}
 			out := px.Exec(tp, nil)
-			wantOut := renderOf(key, want.ver, si)
+			wantOut := richRender(key, want.ver, si)
 			if out.Failed() || out.S != wantOut {
 				fail("wrong-content", "the returned template renders %s, want %q", out, wantOut)
 				return
@@ -178,7 +285,7 @@ func (c *HistCase) Exec(t *eng.T) {
 			} else {
 				w.sets[si].CleanCache(args[1:]...)
 				for _, n := range args[1:] {
-					delete(m.cache[si], px.AbsRule("", n))
+					delete(m.cache[si], w.keyOf(n))
 				}
 			}
 			trace = append(trace, op)
@@ -188,18 +295,14 @@ func (c *HistCase) Exec(t *eng.T) {
 			m.debug[si] = !m.debug[si]
 			trace = append(trace, op)
 		case "CHG":
-			key := "/" + args[0]
+			key := w.keyOf(args[0])
 			m.version[key]++
-			for i := 0; i < 2; i++ {
-				w.loaders[i].Files[key] = fileSrc(key, m.version[key])
-			}
+			w.setFile(key, richSrc(key, m.version[key]))
 			trace = append(trace, op)
 		case "FAIL", "OK":
-			key := "/" + args[0]
+			key := w.keyOf(args[0])
 			m.failing[key] = name == "FAIL"
-			for i := 0; i < 2; i++ {
-				w.loaders[i].Fail[key] = name == "FAIL"
-			}
+			w.setFail(key, name == "FAIL")
 			trace = append(trace, op)
 		}
 	}
@@ -213,7 +316,7 @@ func (c *HistCase) Exec(t *eng.T) {
 		sort.Strings(ks)
 		st = append(st, fmt.Sprintf("%v/%v", ks, m.debug[i]))
 	}
-	t.Outcome(strings.Join(st, "|") + fmt.Sprint(m.failing["/a"], m.version["/a"]))
+	t.Outcome(strings.Join(st, "|") + fmt.Sprint(m.failing[w.keyOf("a")], m.version[w.keyOf("a")]))
 }
 
 // ---------- concurrent scenarios ----------
@@ -473,6 +576,17 @@ func run(r *eng.Runner) {
 			ops[i] = seqOps[x]
 		}
 		r.Do(&HistCase{Ops: ops})
+		return !r.Stopped()
+	})
+	// the same histories, one operation shorter, over pongo2's own FSLoader (cache keys are what its Abs makes of a name)
+	fsOps := []string{"FC(1,a)", "FC(1,b)", "FC(2,a)", "FC(1,./a)", "FC(1,d/../a)", "CC(1)", "CC(1,a)", "CC(1,./a)", "CC(1,b,./a)", "CC(2)", "DBG(1)", "CHG(a)", "FAIL(a)", "OK(a)"}
+	r.Group("sequential-histories-fsloader", "c20.hist", fmt.Sprintf("every history of 0..%d operations over %d operations on two sets whose loader is pongo2's FSLoader (in-memory fs.FS behind a counting wrapper), with non-canonical spellings (./a, d/../a) of a name in FromCache and CleanCache", depth-1, len(fsOps)))
+	enum.Seqs(len(fsOps), depth-1, func(idx []int) bool {
+		ops := make([]string, len(idx))
+		for i, x := range idx {
+			ops[i] = fsOps[x]
+		}
+		r.Do(&HistCase{Ops: ops, Loader: "fs"})
 		return !r.Stopped()
 	})
 	if r.Shard == 0 {
